@@ -23,10 +23,11 @@ VARIABLES tid, l, verdict,
           M,         \* market orders submitted and not yet executed: oid -> [p, q]
           L,         \* liquidation window: [on, cnt, qty, should, mustnot, sub, exe, wal]
           skips,     \* knife-edge cases not judged (liquidation price only inside a close->open gap)
+          X,         \* window of ANOTHER symbol's liquidation check (two routes): [on, q]
           bad        \* every distinct clause violated so far -> first event index (the monitor goes on after a
                      \* mismatch: submissions, cancellations and fills are taken as recorded, so its state stays
                      \* that of the run; a known finding early in a run does not hide the rest of it)
-vars == <<tid, l, verdict, ph, ci, cn, lastPos, A, D, M, L, skips, bad>>
+vars == <<tid, l, verdict, ph, ci, cn, lastPos, A, D, M, L, skips, X, bad>>
 H == Traces[tid].hdr
 Ev == Traces[tid].ev
 On(f) == \E x \in DOMAIN H.check : H.check[x] = f
@@ -41,7 +42,7 @@ NoL == [on |-> FALSE, seen |-> FALSE, cnt |-> 0, qty |-> 0, should |-> FALSE, mu
         entry |-> 0, side |-> "none", subs |-> 0, bank |-> 0]
 
 Init == /\ tid \in 1..Len(Traces) /\ l = 1 /\ verdict = "ok" /\ ph = "none" /\ ci = 0 /\ cn = 0 /\ lastPos = 0
-        /\ A = Empty /\ D = Empty /\ M = Empty /\ L = NoL /\ skips = 0 /\ bad = Empty
+        /\ A = Empty /\ D = Empty /\ M = Empty /\ L = NoL /\ skips = 0 /\ X = [on |-> FALSE, q |-> 0] /\ bad = Empty
 
 \* ---------------- oracles ----------------
 Cur == Fixed(ci)
@@ -103,7 +104,7 @@ Submit ==
                           ELSE IF E.q8 # Abs(L.qty) THEN "liq:closing-order-not-for-the-whole-position"
                           ELSE IF ~BankOK(E.pu, L.entry, L.side) THEN "liq:closing-order-not-at-the-bankruptcy-price"
                           ELSE "ok"
-            /\ M' = With(M, E.oid, [p |-> E.p, q |-> E.qh, liq |-> TRUE, hook |-> FALSE, born |-> 0, bmin |-> 0])
+            /\ M' = With(M, E.oid, [p |-> E.p, q |-> E.qh, liq |-> TRUE, hook |-> FALSE, born |-> 0, bmin |-> 0, t |-> E.t])
             /\ UNCHANGED <<A>>
        ELSE /\ verdict' = IF On("market") /\ E.p # E.cur
                           THEN "market:price-is-not-the-current-price-at-submission" \o
@@ -112,7 +113,7 @@ Submit ==
             \* hook: created by a strategy hook inside a fill while a candle is being matched - the order is
             \* ACTIVE at the current price, i.e. at the point of the path where the fill happened
             /\ M' = With(M, E.oid, [p |-> E.p, q |-> E.qh, liq |-> FALSE, hook |-> ph # "none", born |-> lastPos,
-                                    bmin |-> IF ph = "chunk" THEN E.t ELSE 0])
+                                    bmin |-> IF ph = "chunk" THEN E.t ELSE 0, t |-> E.t])
             /\ UNCHANGED <<A, L>>
   ELSE /\ A' = With(A, E.oid, [p |-> E.p, q |-> E.qh,
                                born |-> IF L.on THEN NoReach ELSE IF ph = "minute" THEN lastPos ELSE 0,
@@ -176,7 +177,9 @@ Cancel ==
 PendingMarket == {o \in DOMAIN M : ~M[o].liq}
 \* outside the matching of a candle a pending market order is only owed the flush before the next candle
 Unhook == [o \in DOMAIN M |-> [M[o] EXCEPT !.hook = FALSE]]
-BeginCandle == IF On("market") /\ PendingMarket # {} THEN "market:not-executed-before-the-next-candle-was-processed"
+\* a market order submitted during minute t (its own or, with several routes, another symbol's processing of that
+\* minute) is owed its fill before a candle later than t is processed
+BeginCandle == IF On("market") /\ (\E o \in PendingMarket : M[o].t < E.i) THEN "market:not-executed-before-the-next-candle-was-processed"
                ELSE IF ph # "none" THEN "machinery:nested-candle-events" ELSE "ok"
 Minute == /\ verdict' = BeginCandle /\ ph' = "minute" /\ ci' = E.i /\ cn' = 1 /\ lastPos' = 0
           /\ A' = [o \in DOMAIN A |-> [A[o] EXCEPT !.born = 0]] /\ D' = Empty
@@ -249,7 +252,17 @@ Step ==
        [] E.k = "liqcheck_end" -> LiqCheckEnd /\ UNCHANGED <<ph, ci, cn, lastPos, A, D, M>>
        [] E.k = "end" -> /\ verdict' = IF On("market") /\ PendingMarket # {} THEN "market:never-executed" ELSE "ok"
                          /\ UNCHANGED <<ph, ci, cn, lastPos, A, D, M, L, skips>>
-  /\ bad' = IF verdict' = "ok" \/ verdict' \in DOMAIN bad THEN bad ELSE With(bad, verdict', l)
+       \* C09, several routes: the liquidation check of ANOTHER symbol must leave this symbol alone
+       [] E.k = "xliq" -> verdict' = "ok" /\ UNCHANGED <<ph, ci, cn, lastPos, A, D, M, L, skips>>
+       [] E.k = "xliq_end" -> /\ verdict' = IF On("liq") /\ X.on /\ H.passive /\ E.q8 # X.q
+                                             THEN "liq:position-of-another-symbol-changed-by-a-liquidation" ELSE "ok"
+                              /\ L' = [L EXCEPT !.cnt = E.count]      \* the counter is global to the session
+                              /\ UNCHANGED <<ph, ci, cn, lastPos, A, D, M, skips>>
+  /\ X' = IF E.k = "xliq" THEN [on |-> TRUE, q |-> E.q8] ELSE IF E.k = "xliq_end" THEN [on |-> FALSE, q |-> 0] ELSE X
+  /\ LET xv == IF On("liq") /\ X.on /\ H.passive /\ E.k \in {"submit", "exec", "cancel"} /\ (E.k = "submit" \/ E.pre = "ACTIVE")
+                THEN "liq:order-of-another-symbol-touched-by-a-liquidation" ELSE "ok"
+         Add(b, v) == IF v = "ok" \/ v \in DOMAIN b THEN b ELSE With(b, v, l)
+     IN bad' = Add(Add(bad, verdict'), xv)
   /\ l' = l + 1 /\ UNCHANGED tid
 Spec == Init /\ [][Step]_vars
 Finished == Halt \/ l > Len(Ev)
